@@ -216,6 +216,11 @@ func newMultiSim(run int, seed int64, out *json.Encoder) (*multiSim, error) {
 	tune(d)
 	m.nodes["D"] = d
 	m.sim = &ledgerSim{n: m.nodes["A"], fee: 100, small: true}
+	m.sim.approveAll = func(tx lib.TransactionI) {
+		if bz, e := lib.Marshal(tx); e == nil {
+			m.approve(crypto.HashString(bz))
+		}
+	}
 	return m, out.Encode(ChainLine{Kind: "start", Run: run, Hdrs: []HdrRec{}})
 }
 
